@@ -33,7 +33,7 @@ fn q32(v: &mut Vec<u8>, x: u32) { v.extend_from_slice(&x.to_le_bytes()); }
 // @mem 24
 // @functions utils::misc::stats_for_bed_item -> BigWigRead::get_interval -> search_cir_tree / search_cir_tree_inner / CirTreeBlockSearchIter -> BigWigIntervalIter::next -> get_block_values
 // @bounds one little-endian block with 2 stored values (values fixed to 1.0 and 2.0; coordinates symbolic below 2^20, sorted and disjoint); arbitrary region [s,e) with s <= e on the stored chromosome
-// @stubs OneBlock implements the public BBIFileRead trait: the index lookup always reports the one block, the block is returned uncompressed; alloc::fmt::format -> empty; Vec::push -> within capacity (asserted)
+// @stubs OneBlock implements the public BBIFileRead trait: the index lookup always reports the one block, the block is returned uncompressed; alloc::fmt::format -> empty; Vec::push -> within capacity (asserted); SmallVec::push -> within inline capacity (asserted)
 // @assumes the file's index has already been validated (full_index_tree_offset known)
 // @cut thread-count independence, chunk reassembly, the CLI and the name column; symbolic values (symbolic*symbolic float products do not finish)
 // @witness cover: region straddling both values; region between the values (nothing covered); region clipped inside one value
@@ -41,6 +41,7 @@ fn q32(v: &mut Vec<u8>, x: u32) { v.extend_from_slice(&x.to_le_bytes()); }
 #[kani::unwind(4)]
 #[kani::stub(alloc::fmt::format, crate::verif_support::fake_format)]
 #[kani::stub(alloc::vec::Vec::push, crate::verif_support::push_within_capacity)]
+#[kani::stub(SmallVec::push, crate::verif_support::smallvec_push_inline)]
 fn c17_stats_for_region() {
     let (s0, e0, s1, e1): (u32, u32, u32, u32) = (kani::any(), kani::any(), kani::any(), kani::any());
     kani::assume(s0 < e0 && e0 <= s1 && s1 < e1 && e1 < (1 << 20));
